@@ -8,7 +8,7 @@ cd "$(dirname "$0")/.."
 name="$1"; shift
 dir="seeded/$name"
 props="$*"
-if [ -z "$props" ]; then props=$(python3 -c "import json;print(json.load(open('$dir/meta.json'))['property'])"); fi
+if [ -z "$props" ]; then props=$(python3 -c "import json;d=json.load(open('$dir/meta.json'));print(d.get('check',d['property']))"); fi
 if [ -n "$(git -C "$REPO" status --porcelain --untracked-files=no)" ]; then echo "$REPO has local changes; refusing"; exit 2; fi
 git -C "$REPO" apply "$PWD/$dir/patch.diff" || { echo "patch does not apply"; exit 2; }
 trap 'git -C "$REPO" checkout -- . ; git -C "$REPO" clean -fdq -e target >/dev/null 2>&1' EXIT
